@@ -32,6 +32,10 @@ CLAIMED["C04"] = dict(cat="fault_enumeration",
    text="Four seeded batches. scan: sources built from random markers go through backup/prune/copy histories and every stored byte outside keys/ is scanned for marker windows (with a positive control through the simulator's own decryption), every file must authenticate, key files must not contain master-key bytes. nonce: with the nonce hook disarmed and kernel randomness, all message nonces over a history that re-encrypts identical plaintexts are pairwise distinct. tamper: for sampled/all stored files x {remove, truncate, bit flip, extend, swap with sibling} every read path (open, list, index load, full read-back) must fail or return exactly the untampered result. cred: add_key/delete_key/open sequences against a model set of valid credentials.",
    ref="5 C04", note="Index-entry edits re-encoded with the right key are forging with the key, not tampering, and are excluded here (C05 uses them). Detached-thread panics while the call itself returns Err are counted, not flagged. Findings about unverified file/blob ids are listed in known_findings.json.",
    tech="deterministic simulation: stored-byte tamper enumeration + independent AEAD audit + credential histories against a model")
+CLAIMED["C08"] = dict(cat="exploration",
+   text="Seeded simulation of histories that produce packs through every path (backup, stale-index double backup, prune repack fast and re-encoding, v1->v2 repack-uncompressed, merge, rewrite, copy into a repository with other key/compression/pack size) over drawn blob-size mixes, compression levels and pack-size limits; a monitor decodes every pack and index file ever written (from the op log) with the simulator's own decoder: id = hash, trailer, header entries tile the body, every blob authenticates/decompresses/hashes to its id, index entries equal the header and size. Then a subset or all index files are removed, repair_index (+/- read_all) runs and every snapshot must read back equal to its model with check(read_data) clean.",
+   ref="5 C08", note="Trusted: the simulator's decoder. Blob-less packs_to_delete entries (unindexed packs marked by prune) are exempt from the blob-list comparison, their size is still compared.",
+   tech="deterministic simulation: write monitor with independent decoder over generated histories + index-loss/repair round trip")
 NOT_YET = {}
 NA = {
  "C09": "pure function of its arguments (snapshot list, keep options, explicit 'now'): no schedule, clock read, I/O, fault or history for a simulator to own; see DESIGN.md section 6",
